@@ -67,7 +67,7 @@ def resolve(tree, path):
     scope = tree
     for i, seg in enumerate(path):
         last = i == len(path) - 1
-        if isinstance(scope, (ast.Module, ast.ClassDef)):
+        if isinstance(scope, (ast.Module, ast.Interactive, ast.ClassDef)):
             found = next(children_named(scope.body, seg), None)
         elif isinstance(scope, (ast.FunctionDef, ast.AsyncFunctionDef)):
             args = scope.args
@@ -174,6 +174,30 @@ class C15(core.Check):
             ok = got is want
             sites.append(site(ok, facts, fail="wrong_node" if got is not None else "not_found",
                               got=node_id(got), want=node_id(want)))
+        # the less common call form: a single compound statement parsed with mode="single" (root ast.Interactive)
+        if len(case["items"]) == 1 and ITEMS[case["items"][0]][1].startswith(("class ", "def ", "async def ")):
+            ti = ast_parse(src, mode="single")
+            for path in PATHS:
+                if path[0] != ITEMS[case["items"][0]][0]:
+                    continue
+                want = resolve(ti, path)
+                facts = {"op": "find_single_mode", "path": ".".join(path), "kinds": describe_path(ti, path), "exists": want is not None}
+                try:
+                    got = find_in_ast(list(path), ti)
+                except Exception as e:
+                    sites.append(site(False, facts, fail="raise", **core.exc_obs(e)))
+                    continue
+                sites.append(site(got is want, facts, fail="wrong_node" if got is not None else "not_found", got=node_id(got), want=node_id(want)))
+            for path in existing:
+                t1 = ast_parse(src, mode="single")
+                want = resolve(t1, path)
+                facts = {"op": "replace_single_mode", "path": ".".join(path), "kind": type(want).__name__}
+                rq = RewriteAtQuery(search=list(path), replacement_node=marker_for(want))
+                try:
+                    out = rq.visit(t1)
+                    sites.append(site(rq.replaced and ast.dump(out).count("MARK") >= 1, facts, fail="not_replaced", replaced_flag=rq.replaced))
+                except Exception as e:
+                    sites.append(site(False, facts, fail="raise", **core.exc_obs(e)))
         # replacement at every existing location (fresh tree each time)
         for path in existing:
             t1 = ast_parse(src)
